@@ -72,7 +72,8 @@ class Ctx:
             defines = ['YY_BUF_SIZE=%d' % sc.buf_size] if (sc.buf_size and sc.flavor != 'c99') else []
             last = (i == len(scs) - 1)
             r = common.build_scanner(self.flex, self.workdir, 'm%s_%d' % (key, i), sc.to_l(), sc.flex_args(), san=san, tsan=tsan,
-                                     defines=defines, extra_objs=objs if last else (), link=last)
+                                     defines=defines, extra_objs=objs if last else (), link=last, cxx=(sc.flavor == 'cxx'),
+                                     link_cxx=any(s.flavor == 'cxx' for s in scs))
             if not r.ok:
                 self._builds[key] = r
                 return r
